@@ -48,7 +48,7 @@ Definition requested_phi (s : beam) (o : op) : option R :=
 Definition requested_theta (s : beam) (o : op) : option R :=
   match o with
   | SetThetaInternal th | SetAngles _ th => Some th
-  | SetThetaExternal e => Some (snell_inv s (Rabs e))
+  | SetThetaExternal e => Some (snell_inv s e)
   | IntoPump => Some 0
   | _ => None
   end.
